@@ -9,6 +9,8 @@ CONSTANTS GenDepth,
           OpBoost,    \* set of operation names whose weight is multiplied (per-family emphasis)
           BoostFactor
 
+VARIABLE sits      \* per call: the abstract SITUATION it met (for coverage-guided selection)
+
 R(s) == RandomElement(s)
 RW(q) == q[RandomElement(1..Len(q))]     \* weighted choice: q lists values with multiplicity
 CondW == <<"none", "none", "none", "none", "none", "inm", "ifm-cur", "ifm-cur", "ifm-stale", "ifm-star">>
@@ -67,9 +69,32 @@ RandCall(op, St) ==
 Fix(c, St) == c
 
 First == [op |-> "CreateBucket", b |-> "b1"]
+\* The situation of a call: operation, its condition / checksum / offset / version-id kind, the
+\* versioning state of the target bucket, what is current at the target key, and the outcome.
+\* Programs are selected so that as many distinct situations as possible are executed.
+CurKind(St, b, k) ==
+  IF St.bver[b] = "Absent" THEN "nobucket"
+  ELSE LET vs == St.objs[b][k] IN
+       IF LatestIdx(vs) = 0 THEN "absent"
+       ELSE IF Current(vs).dm THEN "marker"
+       ELSE IF Current(vs).vid = 0 THEN (IF Len(vs) > 1 THEN "null+others" ELSE "null")
+       ELSE (IF Idx(vs, 0) # 0 THEN "version+null" ELSE "version")
+VidKind(St, c) ==
+  IF "vid" \notin DOMAIN c THEN "-"
+  ELSE IF c.vid = -1 THEN "novid"
+  ELSE LET vs == St.objs[c.b][c.k] IN
+       IF Idx(vs, c.vid) = 0 THEN "absentvid"
+       ELSE IF vs[Idx(vs, c.vid)].latest THEN "latestvid" ELSE "oldvid"
+Fld(c, f) == IF f \in DOMAIN c THEN c[f] ELSE "-"
+Sit(St, c, r) ==
+  <<c.op, Fld(c, "cond"), Fld(c, "cksum"), Fld(c, "off"), Fld(c, "manifest"), VidKind(St, c),
+    IF "b" \in DOMAIN c THEN St.bver[c.b] ELSE "-",
+    IF "k" \in DOMAIN c THEN CurKind(St, c.b, c.k) ELSE "-", r.err>>
+
 GenInit == /\ S = Apply(InitState(Buckets, Keys, Deviations), First).s
            /\ res = NoRes
            /\ hist = <<First>>
+           /\ sits = <<>>
 \* operation weights (multiplicity = weight); restricted to Ops
 OpW == <<"CreateBucket", "DeleteBucket", "PutVersioning", "PutVersioning", "PutObject", "PutObject", "PutObject", "PutObject",
          "GetObject", "DeleteObject", "DeleteObject", "DeleteObject", "CopyObject", "CopyObject", "AppendObject", "AppendObject",
@@ -78,8 +103,10 @@ OpW == <<"CreateBucket", "DeleteBucket", "PutVersioning", "PutVersioning", "PutO
 OpWBase == SelectSeq(OpW, LAMBDA o : o \in Ops)
 OpWBoost == SelectSeq(OpWBase, LAMBDA o : o \in OpBoost)
 OpWSel == OpWBase \o FlattenSeq([i \in 1..BoostFactor |-> OpWBoost])
-GenNext == Step(RandCall(RW(OpWSel), S))
-GenSpec == GenInit /\ [][GenNext]_vars
+\* a generated step: the call is applied and its situation recorded
+GStep(c) == Step(c) /\ sits' = Append(sits, Sit(S, c, Apply(S, c).r))
+GenNext == GStep(RandCall(RW(OpWSel), S))
+GenSpec == GenInit /\ [][GenNext]_<<vars, sits>>
 
-Emit == IF Len(hist) = GenDepth THEN PrintT(ToJson(hist)) ELSE TRUE
+Emit == IF Len(hist) = GenDepth THEN PrintT(ToJson([calls |-> hist, sits |-> sits])) ELSE TRUE
 =============================================================================
